@@ -357,6 +357,12 @@ Meth(t, colon, p) ==
     /\ nid' = nid + 1
     /\ UNCHANGED <<nfile, gdefs, empty>>
 
+\* print(_G.u) : names the global u whatever locals are visible
+GUse(u) ==
+    /\ On("guse") /\ More
+    /\ prog' = Append(prog, [infn |-> InFunc, vis |-> VisIds, vispend |-> PendIds, top |-> AtTop, ingf |-> InGFunc, k |-> "guse", u |-> u, b |-> 0, alt |-> NoAlt])
+    /\ UNCHANGED <<stack, nid, nfile, reads, gdefs, empty>>
+
 \* t[u] = 1 : an indexed assignment; both the table and the (non-constant) index are read
 IAssign(t, u) ==
     /\ On("iassign") /\ More
@@ -443,6 +449,7 @@ Next ==
     \/ \E n \in Names, u \in UNames : ForNum(n, u) \/ ForIn(n, u)
     \/ \E n \in Names, p \in Names : LFunc(n, p) \/ LEqFunc(n, p) \/ GFunc(n, p)
     \/ \E t \in Names, c \in BOOLEAN, p \in Names : Meth(t, c, p)
+    \/ \E u \in UNames : GUse(u)
     \/ \E t \in Names, u \in UNames : IAssign(t, u)
     \/ \E t \in Names, k \in 1..MaxItems : MUse(t, k)
     \/ \E p \in Names : CFunc(p) \/ CChain(p)
